@@ -50,6 +50,7 @@ Lemma parse_frame_cons5 a b c d id tl :
   parse_frame (a :: b :: c :: d :: id :: tl) =
   let L := unbe32 a b c d in
   if L =? 0 then PFrame KeepAlive 4 else
+  if (id =? 84) && negb (L =? 323119476) then (if 65536 <? L then PError else PUnknown id (4 + L)) else
   if negb (id =? 84) && (65536 <? L) then PError else
   dispatch id a L (5 + len tl) (a :: b :: c :: d :: id :: tl).
 Proof.
@@ -57,7 +58,15 @@ Proof.
   replace (len (a :: b :: c :: d :: id :: tl)) with (5 + len tl) by (rewrite !len_cons; lia).
   replace (5 + len tl <? MSG_LEN_SIZE) with false by (symmetry; unfold MSG_LEN_SIZE; lia).
   replace (5 + len tl <? MSG_LEN_SIZE + MSG_ID_SIZE) with false by (symmetry; unfold MSG_LEN_SIZE, MSG_ID_SIZE; lia).
-  reflexivity.
+  cbv zeta. change (rd32 (a :: b :: c :: d :: id :: tl) 0) with (unbe32 a b c d).
+  change (nthN (a :: b :: c :: d :: id :: tl) MSG_ID_POS) with (Some id).
+  change (nthN (a :: b :: c :: d :: id :: tl) 0) with (Some a). cbv iota beta.
+  change KeepAlive_LEN with 0. change KeepAlive_FULL_SIZE with 4. change Handshake_ID_FROM_PROTOCOL with 84.
+  change MAX_FRAME_SIZE with 65536. change MSG_LEN_SIZE with 4.
+  change handshake_prefix with 323119476. change Frame_handshake_by_prefix with true. cbn [negb orb].
+  destruct (unbe32 a b c d =? 0); [reflexivity|].
+  destruct (id =? 84); cbn [andb negb]; [|reflexivity].
+  destruct (unbe32 a b c d =? 323119476); cbn [andb negb]; reflexivity.
 Qed.
 
 Ltac closed_ifs := repeat match goal with
